@@ -210,6 +210,14 @@ class Folder:
             return str.maketrans(*args)
         if d == "bytes.maketrans":
             return bytes.maketrans(*args)
+        if d == "next" and args and isinstance(args[0], list | tuple):
+            if args[0]:
+                return args[0][0]
+            if len(args) > 1:
+                return args[1]
+            raise NotConstant("next() on an empty sequence without default")
+        if d in ("any", "all", "sum") and len(args) >= 1 and isinstance(args[0], list | tuple | set):
+            return {"any": any, "all": all, "sum": sum}[d](*args)
         if d in ("MappingProxyType", "types.MappingProxyType") and len(args) == 1 and isinstance(args[0], dict):
             return dict(args[0])  # read-only view: same mapping for folding purposes
         if d in ("str", "int", "len", "tuple", "list", "set", "frozenset", "dict", "sorted", "min", "max", "bool", "ord", "chr", "range", "bytes", "abs"):
@@ -228,6 +236,10 @@ class Folder:
             sub = Folder({**self.env, **env}, self.resolver)
             out[sub.fold(n.key)] = sub.fold(n.value)
         return out
+
+    def f_GeneratorExp(self, n):
+        # folded eagerly to a list: only consumed by next()/any()/all()/sum()/tuple()/list()/join in foldable contexts
+        return [Folder({**self.env, **e}, self.resolver).fold(n.elt) for e in self._comp_envs(n.generators)]
 
     def f_ListComp(self, n):
         return [Folder({**self.env, **e}, self.resolver).fold(n.elt) for e in self._comp_envs(n.generators)]
